@@ -466,6 +466,15 @@ func (r *runner) exec(line string) (cont bool) {
 			n++
 		}
 		r.res("ok %d %s", n, first)
+	case "bstats":
+		tx := r.tx(f[1])
+		if tx == nil {
+			r.res("notx")
+			return true
+		}
+		// statistics of the root bucket aggregate every nested bucket: all tree pages of the database
+		st := tx.Cursor().Bucket().Stats()
+		r.res("ok branch=%d branchov=%d leaf=%d leafov=%d keyn=%d buckets=%d inline=%d", st.BranchPageN, st.BranchOverflowN, st.LeafPageN, st.LeafOverflowN, st.KeyN, st.BucketN, st.InlineBucketN)
 	case "img":
 		r.image()
 	case "stale":
@@ -1092,7 +1101,7 @@ func genHistory(r *rng, cfg genCfg, o openOpts) []string {
 	for id := range readers {
 		L = append(L, fmt.Sprintf("dump r%d", id), fmt.Sprintf("endr %d", id))
 	}
-	L = append(L, "beginr 901", "dump r901", "check r901", "endr 901", "close")
+	L = append(L, "beginr 901", "dump r901", "check r901", "bstats r901", "endr 901", "close")
 	return L
 }
 
